@@ -1111,14 +1111,16 @@ def _search_defs_to_any(fn: ast.FunctionDef) -> None:
         ast.fix_missing_locations(g)
 
 
-def _inline_search_predicates(fn: ast.FunctionDef) -> bool:
+def _inline_search_predicates(fn: ast.FunctionDef, module_defs: Optional[Dict[str, ast.FunctionDef]] = None) -> bool:
     """def p(x): [logging / plain call statements]; for e in IT: if C: return K1; return K2      nested in fn and only used as
     `if p(a): BODY` / `if not p(a): BODY` (plain-name arguments, no else): each such statement becomes the statements of the
     prelude followed by the search loop itself - `for e in IT: if C: break  else: BODY` when BODY runs for "no element
     matched", `for e in IT: if C: BODY; break` otherwise."""
     changed = False
     parents = {ch: par for par in ast.walk(fn) for ch in ast.iter_child_nodes(par)}
-    for g in [n for n in ast.walk(fn) if isinstance(n, ast.FunctionDef) and n is not fn]:
+    local_defs = [n for n in ast.walk(fn) if isinstance(n, ast.FunctionDef) and n is not fn]
+    for g in local_defs + [d for d in (module_defs or {}).values() if d is not fn]:
+        is_local = any(g is x for x in local_defs)
         body = _body_wo_doc(g)
         a = g.args
         if len(body) < 2 or g.decorator_list or a.defaults or a.kwonlyargs or a.kwarg or a.vararg or a.posonlyargs:
@@ -1144,14 +1146,29 @@ def _inline_search_predicates(fn: ast.FunctionDef) -> bool:
             if isinstance(par, ast.UnaryOp) and isinstance(par.op, ast.Not):
                 test, neg, par = par, True, parents.get(par)
             if not (isinstance(call, ast.Call) and call.func is u and not call.keywords and len(call.args) == len(params)
-                    and all(isinstance(x, ast.Name) for x in call.args) and isinstance(par, ast.If) and par.test is test and not par.orelse):
+                    and all(isinstance(x, ast.Name) or (not is_local and not isinstance(x, ast.Starred)) for x in call.args)
+                    and isinstance(par, ast.If) and par.test is test and not par.orelse):
                 ok = False
                 break
             sites.append((par, call, neg))
         if not ok:
             continue
+        if not is_local:
+            # a module-level helper sees module names only: its own locals must not collide with names of the caller
+            own = _assigned_names(g) | {n.id for n in ast.walk(loop.target) if isinstance(n, ast.Name)}
+            if own & ({n.id for n in ast.walk(fn) if isinstance(n, ast.Name)} - set(params)):
+                continue
         for if_st, call, neg in sites:
-            m = dict(zip(params, call.args))
+            m = {}
+            bind_pre: List[ast.stmt] = []
+            for k_, (p_, arg) in enumerate(zip(params, call.args)):
+                uses_p = sum(1 for n in ast.walk(g) if isinstance(n, ast.Name) and n.id == p_)
+                if _simple_arg(arg) or uses_p <= 1:
+                    m[p_] = arg
+                else:
+                    tmp = f"_arg_{g.name.strip('_')}_{p_}"
+                    bind_pre.append(ast.Assign(targets=[ast.Name(id=tmp, ctx=ast.Store())], value=copy.deepcopy(arg)))
+                    m[p_] = ast.Name(id=tmp, ctx=ast.Load())
             sub = lambda node: _Subst(m, {}).visit(copy.deepcopy(node))
             on_match = ret.value.value != neg        # BODY runs when an element matched?
             if on_match:
@@ -1165,7 +1182,7 @@ def _inline_search_predicates(fn: ast.FunctionDef) -> bool:
                 new_loop = ast.For(target=copy.deepcopy(loop.target), iter=sub(loop.iter),
                                    body=[ast.If(test=sub(loop.body[0].test), body=[ast.Break()], orelse=[])],
                                    orelse=list(if_st.body), type_comment=None)
-            new = [sub(x) for x in pre] + [new_loop]
+            new = bind_pre + [sub(x) for x in pre] + [new_loop]
             for x in new:
                 ast.copy_location(x, if_st)
                 ast.fix_missing_locations(x)
@@ -1177,11 +1194,12 @@ def _inline_search_predicates(fn: ast.FunctionDef) -> bool:
                         blk[i:i + 1] = new
         if not ok:
             continue
-        for owner in ast.walk(fn):
-            for field in ("body", "orelse", "finalbody"):
-                blk = getattr(owner, field, None)
-                if isinstance(blk, list) and any(x is g for x in blk):
-                    blk[:] = [x for x in blk if x is not g] or [ast.Pass()]
+        if is_local:
+            for owner in ast.walk(fn):
+                for field in ("body", "orelse", "finalbody"):
+                    blk = getattr(owner, field, None)
+                    if isinstance(blk, list) and any(x is g for x in blk):
+                        blk[:] = [x for x in blk if x is not g] or [ast.Pass()]
         ast.fix_missing_locations(fn)
         changed = True
         parents = {ch: par for par in ast.walk(fn) for ch in ast.iter_child_nodes(par)}
@@ -2380,7 +2398,9 @@ def _flatten_module(tree: ast.Module, imported: Dict[str, ast.FunctionDef]) -> T
             _unroll_table_loops(node, tables)      # again: a helper may have returned the display that is iterated
             _unroll_search_loops(node, enums)
             if not UNDERSCORE_ONLY:
-                _inline_search_predicates(node)
+                if _inline_search_predicates(node, {k: v for k, v in all_functions.items() if v is not node}):
+                    inlined.extend(k for k in all_functions if not any(
+                        isinstance(x, ast.Name) and x.id == k and isinstance(x.ctx, ast.Load) for x in ast.walk(tree)))
                 _inline_expression_closures(node)  # again: a closure handed to an inlined helper is now called directly
                 _any_to_search_loops(node)
             _accumulate_to_comp(node)
